@@ -55,11 +55,12 @@ def run(tier):
         ["TLC and the TLA+ Json/IOUtils modules", "counting clients record every invocation of Client.Update"],
         time.time() - t0, len(outcome.violations))
     vlib.cleanup(PID)
-    rc2 = sub.run_family(PID, tier, [("overlap", 2000 if tier == "quick" else 80000)], [("Subscribe.tla", "Subscribe_none.cfg", False)],
+    rc2 = sub.run_family(PID, tier, [("overlap", 2000 if tier == "quick" else 80000), ("remove", 800 if tier == "quick" else 30000)], [("Subscribe.tla", "Subscribe_none.cfg", False)],
                          "stage 2: random subscribe scenarios whose subscribers carry overlapping subscription paths (a path, one of its prefixes, a glob "
                          "variant) plus multi-update notifications; between quiescent points the deliveries per leaf incl. the reported duplicates must equal "
                          "the updates offered (each notification offered to a subscriber at most once), and the 'offer' hook must see no offer to a "
-                         "subscription's queue after its RPC returned (SubscribeTrace.tla)", [], shards=int(sh), merge=True)
+                         "subscription's queue after its RPC returned - also not after a stream that lost the race with the removal of its target was refused and the "
+                         "target came back (profile 'remove') (SubscribeTrace.tla)", [], shards=int(sh), merge=True)
     return max(rc1, rc2)
 
 
